@@ -649,7 +649,7 @@ class SmtLibParser(object):
     def _division(self, left: FNode, right: FNode) -> FNode:
         """Utility function that builds a division"""
         mgr = self.env.formula_manager
-        if left.is_constant() and right.is_constant():
+        if left.is_constant() and right.is_constant() and not right.is_zero():
             return mgr.Real(Fraction(left.constant_value()) /
                             Fraction(right.constant_value()))
         return self.Div(left, right)
